@@ -47,6 +47,28 @@ def compare(Fc, Fo, what):
     return labels
 
 
+def text_tables(args, n, what):
+    """the two tools' printed texts (stdout), read by the harness's readers: their truth tables over n variables"""
+    from vlib import rd_opb
+    from checks.c17 import parse_dimacs
+    r1 = cli.run_main('cnfgen', ['-q'] + args)
+    r2 = cli.run_main('pbgen', ['-q'] + args)
+    if r1.exc is not None or r1.code != 0 or r2.exc is not None or r2.code != 0:
+        raise Violation("{}: printing fails although the formula can be built: exit status {} / {}".format(what, r1.code, r2.code))
+    n1, m1, clauses, _ = parse_dimacs(r1.out)
+    doc = rd_opb.read_opb(r2.out)
+    if doc.errors:
+        raise Violation("{}: pbgen prints a line that is neither a comment nor a constraint: {}".format(what, doc.errors[0]))
+    if n1 != n or doc.declared_variables != n:
+        raise Violation("{}: the printed texts declare {} (DIMACS) and {} (OPB) variables, the formula has {}".format(what, n1, doc.declared_variables, n))
+    if m1 != len(clauses) or doc.declared_constraints != len(doc.constraints):
+        raise Violation("{}: a printed text declares a number of rows it does not have".format(what))
+    t1 = tt.cnf_tt(n, clauses)
+    rows = [[(c, -v if neg else v) for (c, v, neg) in terms] + ['==' if rel == '=' else rel, deg] for (terms, rel, deg) in doc.constraints]
+    t2 = tt.opb_tt(n, rows)
+    return t1, t2
+
+
 def run_cli(case):
     f = catalog.FAMILIES[case['fam']]
     p = case['p']
@@ -68,7 +90,17 @@ def run_cli(case):
             raise Violation("{}: one tool rejects the command line, the other builds a formula: {}".format(
                 ' '.join(args[:12]), [str(r)[:80] for r in res]))
         Fc, Fo = res
-        labels = compare(Fc, Fo, "cnfgen/pbgen {}".format(' '.join(args[:12])))
+        what = "cnfgen/pbgen {}".format(' '.join(args[:12]))
+        labels = compare(Fc, Fo, what)
+        if labels is not None and case.get('pre', 0) % 2 == 0:
+            # ... and what the two tools PRINT is that formula too (the rendering, not only the object)
+            t1, t2 = text_tables(args, Fc.number_of_variables(), what)
+            want = tt.formula_tt(Fc)
+            if t1 != want or t2 != want:
+                bad = 'DIMACS text of cnfgen' if t1 != want else 'OPB text of pbgen'
+                a = tt.first_row((t1 if t1 != want else t2) ^ want)
+                raise Violation("{}: the {} and the formula object differ on assignment {}".format(what, bad, tt.row_assignment(Fc.number_of_variables(), a)))
+            labels.append('printed-texts-compared')
     if labels is None:
         return Outcome(nontrivial=False, labels=['too-large', f.name])
     if f.uses_random:
@@ -242,8 +274,8 @@ NAMES = catalog.family_names()
 
 SUBCHECKS = [
     SubCheck('cli', run_cli, strategy=strat_cli, quick=900, thorough=40000,
-             rule="every formula sub-command of the catalogue (33 helpers shared by both tools, every option) with parameters giving <=22 variables, graph arguments as harness-written files, random sub-commands under one --seed; cnfgen vs pbgen built in-process (mode='formula'); oracle: pbgen yields a pseudo-Boolean object, same variable count, same names in order, identical complete truth tables; non-trivial: the OPB side has a non-clausal constraint",
-             required_labels=[n for n in NAMES] + ['native-cardinality', 'native-equality', 'clausal-only', 'random-family']),
+             rule="every formula sub-command of the catalogue (33 helpers shared by both tools, every option) with parameters giving <=22 variables, graph arguments as harness-written files, random sub-commands under one --seed; cnfgen vs pbgen built in-process (mode='formula'); oracle: pbgen yields a pseudo-Boolean object, same variable count, same names in order, identical complete truth tables; in half of the cases also the texts the two tools print (read by the harness's DIMACS and OPB readers) have that truth table and declare the counts they contain; non-trivial: the OPB side has a non-clausal constraint",
+             required_labels=[n for n in NAMES] + ['native-cardinality', 'native-equality', 'clausal-only', 'random-family', 'printed-texts-compared']),
     SubCheck('cli_random', run_cli_random, strategy=strat_cli_random, quick=700, thorough=30000,
              rule="sub-commands with random graph constructions and modifiers (gnp, gnm, gnd, glrp, glrm, glrd, regular, plantclique, plantbiclique, addedges, splitedges) and sub-commands that draw random numbers while building (tseitin random*, php M N D, op N d, subsetcard N d, stone --sparse, randkcnf, randkxor, pitfall), a quarter of the cases combine both sources (tseitin random* on a random graph), each run by cnfgen and pbgen with the same --seed from different states of the global generator; same oracle (<=22 variables compared completely); non-trivial: >=2 rows",
              required_labels=['random-graph', 'random-family', 'two-random-sources', 'tseitin', 'php', 'kcolor']),
